@@ -145,6 +145,24 @@ def stopping_game(rng, nmin=4, nmax=14):
     return {"rewards": rewards, "players": kinds, "transition_list": tl, "final_states": finals}
 
 
+def tiny_game(rng):
+    """One- to three-state games: the smallest legal objects."""
+    k = rng.randrange(5)
+    if k == 0:      # a single absorbing final state
+        return {"rewards": [rng.choice([0, 3])], "players": [PR], "transition_list": [[(1, 0)]], "final_states": [0]}
+    if k == 1:      # start -> final
+        return {"rewards": [rng.randint(0, 5), 0], "players": [rng.choice([P1, P2]), PR],
+                "transition_list": [[("go", 1)], [(1, 1)]], "final_states": [1]}
+    if k == 2:      # coin flip between sink and final
+        p = rng.choice([0.5, 0.25, 1e-9, 1 - 1e-9, 0.07])
+        return {"rewards": [1, 0, 0], "players": [PR, PR, PR],
+                "transition_list": [[(p, 1), (1 - p, 2)], [(1, 1)], [(1, 2)]], "final_states": [2]}
+    if k == 3:      # float rewards and a huge one
+        return {"rewards": [0.5, 10 ** 30, 0.0], "players": [P1, PR, PR],
+                "transition_list": [[("a", 1), ("b", 2)], [(1.0, 2)], [(1, 2)]], "final_states": [2]}
+    return {"rewards": [0, 0], "players": [P2, PR], "transition_list": [[("x", 1), ("y", 1)], [(1, 1)]], "final_states": [1, 1]}
+
+
 def _probs(rng, k):
     if k == 1:
         return [1 if rng.random() < 0.7 else 1.0]
@@ -262,7 +280,8 @@ def gen_params(rng, cls=None):
             return round(rng.uniform(0.01, 0.99), rng.choice([3, 5, 17]))
         return rng.choice([0.01, 0.99, 0.5, 0.001, 0.999] + EXTREME_PROBS)
     return {
-        "seed": rng.choice([0, 1, 7, 47, rng.randint(0, 10 ** 6), rng.randint(0, 2 ** 40)]),
+        "seed": rng.choice([0, 1, 7, 47, rng.randint(0, 10 ** 6), rng.randint(0, 2 ** 40), rng.randint(0, 2 ** 40),
+                            2 ** 63 + rng.randint(0, 99), 10 ** 30 + rng.randint(0, 9)]),
         "width": w, "length": l,
         "max_reward": rng.choice([1, 2, 6, 6, 6, rng.randint(1, 64)]),
         "rb": prob(), "lb": prob(), "tb": prob(), "lt": prob(),
